@@ -12,7 +12,9 @@ LEVEL_TEXT = ("TLC runs the character-level scanner of Quote.tla over ALL input 
               "mutually consistent). Every finished scan is emitted as an (input -> expected outputs) case and executed on the real "
               "spiftool_split, spif_tok_eval (with and without separator object), num_words/get_word/get_pword and join in an ASan build of "
               "the current tree with exact-size heap inputs. Long random inputs (50-5000 characters) are recorded from the real code and "
-              "validated by TLC running the same scanner over them (trace validation).")
+              "validated by TLC running the same scanner over them (trace validation). The tok OBJECT is additionally explored with a "
+              "history (TokObj.tla): every pair of (separator, source) evaluations over all sources up to 2 (quick) / 3 (thorough) characters and "
+              "every short triple is executed on ONE object through set_src / set_sep, the token list compared after each evaluation.")
 LEVEL_NOTE = ("Exhaustive only up to the length bound and over that 7-character alphabet / those 3 delimiter sets; beyond it a few dozen "
               "long random strings. Delimiter sets containing a quote or backslash, and the empty delimiter string, are outside the "
               "universe. get_word/get_pword are claimed for indices 1..num_words only (0 and num_words+1.. are run for memory safety). "
@@ -121,6 +123,56 @@ def exhaustive(ctx, exe):
     return res
 
 
+HIST_ACTIONS = ["OpEvalFresh", "OpEvalAgain", "OpEvalAgainNewSep"]
+
+
+def hist_key(c, at, f):
+    """history step: what the object held before, what the new source yields, whether the separator changed"""
+    h = c.meta["h"]
+    now = "blank-source" if not h[at]["toks"] else "tokens"
+    prev = "fresh" if at == 0 else ("after-blank-source" if not h[at - 1]["toks"] else "after-tokens")
+    sep = "" if at == 0 or h[at]["d"] == h[at - 1]["d"] else ",sep-changed"
+    k = "tok_eval(history) d=%s [%s,%s%s] %s" % (dclass(h[at]["d"]), prev, now, sep, x_c12.fail_class(f))
+    if f.kind == "ret":
+        k += "/" + diff_class(f.exp, f.got)
+    return k
+
+
+def histories(ctx, exe):
+    """The tok OBJECT with a history (spec/TokObj.tla): every pair of evaluations (and the short triples) on ONE object
+    through set_src / set_sep; after each evaluation the list must be the scanner's result for the current source alone."""
+    cfg = "TokObj_quick.cfg" if ctx.tier == "quick" else "TokObj_thorough.cfg"
+    cs = x_c12.CaseStream(ctx, exe, [], hist_key, "tok_histories", whole_script=True)
+    st = {"n": 0, "steps": 0, "nonblank_then_blank": 0, "blank_then_nonblank": 0, "sep_changes": 0, "triples": 0}
+
+    def on_hist(r):
+        h = r["h"]
+        st["n"] += 1
+        st["steps"] += len(h)
+        st["triples"] += len(h) >= 3
+        for a, b in zip(h, h[1:]):
+            st["nonblank_then_blank"] += bool(a["toks"]) and not b["toks"]
+            st["blank_then_nonblank"] += (not a["toks"]) and bool(b["toks"])
+            st["sep_changes"] += a["d"] != b["d"]
+        if [tuple(e["s"]) for e in h] in ([(97, 32), (32,)], [(97, 58), (58, 58)]) and len({tuple(e["d"]) for e in h}) == 1:
+            ctx.sample({"one_tok_object": [{"sep": txt(e["d"]) if e["d"] else "(white space)", "src": txt(e["s"]),
+                                            "tokens_after_eval": [txt(x) for x in e["toks"]]} for e in h]})
+        steps = [("tok_eval", [tok(e["d"]) if e["d"] else "-", tok(e["s"])], tok(e["toks"]), None) for e in h]
+        cs.add(x_c12.Case(st["n"], steps, {"h": h}))
+    try:
+        res = x_c12.tlc_cases(ctx, "MC_TokObj.tla", cfg, HIST_ACTIONS, on_hist)
+    finally:
+        tot = cs.close()
+    if res.ok and tot["scripts"] != res.edges:
+        raise Broken("emitted %d histories but replayed %d scripts" % (res.edges, tot["scripts"]))
+    if res.ok and not (st["nonblank_then_blank"] and st["blank_then_nonblank"] and st["sep_changes"] and st["triples"]):
+        raise Broken("vacuity: history classes missing: %s" % st)
+    ctx.cov["tok_histories"] = {"histories": st["n"], "evaluations_on_shared_objects": st["steps"], "triples": st["triples"],
+                                "steps_tokens_then_blank_source": st["nonblank_then_blank"],
+                                "steps_blank_source_then_tokens": st["blank_then_nonblank"], "steps_with_separator_change": st["sep_changes"]}
+    ctx.add("distinct_nontrivial", st["n"])
+
+
 def gen_long(rnd, n):
     """long random texts: (delims, text)"""
     weights = [(97, 14), (98, 12), (99, 10), (100, 8), (101, 8), (32, 15), (9, 2), (10, 1), (58, 7), (SQ, 6), (DQ, 6), (BS, 9), (45, 2)]
@@ -215,13 +267,14 @@ def negative_control(ctx, events):
 def run(ctx):
     exe = harness(ctx)
     exhaustive(ctx, exe)
+    histories(ctx, exe)
     long_inputs(ctx, exe)
     ctx.cov["samples"].sort(key=lambda s: json.dumps(s, sort_keys=True))
     ctx.cov["exhaustive"] = True
     ctx.cov["rule"] = ("every input string up to the length bound over the 7-character alphabet x 3 delimiter sets is scanned by TLC and its "
                        "expected outputs are compared with split, tok, num_words/get_word/get_pword and join of the implementation; a case is "
                        "counted non-trivial when the input holds a quote or a backslash or yields at least two tokens (cases are distinct by "
-                       "construction: one per (input, delimiter set))")
+                       "construction: one per (input, delimiter set)); plus every generated evaluation history of one tok object")
     ctx.assumptions += ["ASan build of the current tree (clang -O1)", "C locale",
                         "delimiter sets do not contain quote characters or the backslash"]
 
